@@ -291,7 +291,7 @@ func init() {
 	core.Register(&core.Check{
 		Prop: "C12", Level: "exploration",
 		Rule: "concurrent histories as in C05-C07 (3-16 client goroutines x 10-60 transactions on 3-6 shared keys, flush queue 0-4, memtable 1-1000 B, delay profiles at the schedule points between critical sections), one part executed under the Go race detector (smaller workloads: s2 compression is ~50x slower there), the rest without; violations = any race report (de-duplicated by the pair of first non-runtime frames), any panic, any history finding of the C05/C06/C07/C08 checkers, any stable blocked state found by the stuck-state analysis when a case exceeds its watchdog; non-trivial = a rotation, flush or compaction happened while >=2 client calls were in flight; distinct by case parameters",
-		Gen: genC12, Run: runC12, SelfTest: histSelfTest, BatchSize: 2, GoMaxProcs: 4, Parallel: 6, CaseTimeout: 400 * time.Second,
+		Gen:  genC12, Run: runC12, SelfTest: histSelfTest, BatchSize: 2, GoMaxProcs: 4, Parallel: 6, CaseTimeout: 400 * time.Second,
 		RaceKinds:     map[string]bool{"conc-race": true},
 		OnStuck:       stuckToViolation("C12"),
 		MinNonTrivial: map[string]int{"quick": 15, "thorough": 150},
@@ -300,8 +300,8 @@ func init() {
 	core.Register(&core.Check{
 		Prop: "C15", Level: "exploration",
 		Rule: "case = one scenario, two rounds on the same directories: fast-writers (2-5 writers commit faster than a flusher slowed at its schedule points, flush queue 0-3, memtable 1-300 B), begin-storm (4-8 readers Begin while commits are slowed between timestamp and write), close-pending (Close with flushes queued), close-idle (Close right after Open), two-dbs (two databases in one process); every call must return: an in-process watchdog far above normal latency takes two goroutine dumps 3 s apart and declares a deadlock only if no hook fired in between and every goroutine inside the engine is parked in the same frame with a blocking wait reason; after Close no flush goroutine may remain and an immediate Open must read every writer's last committed value (writers own disjoint keys); non-trivial = a sender actually waited for the flush queue, or >=3 Begins arrived during a commit, or the idle-close family; distinct by case parameters",
-		Gen: genC15, Run: runC15, BatchSize: 5, GoMaxProcs: 4, Parallel: 6, CaseTimeout: 90 * time.Second,
-		OnStuck: stuckToViolation("C15"),
+		Gen:  genC15, Run: runC15, BatchSize: 5, GoMaxProcs: 4, Parallel: 6, CaseTimeout: 90 * time.Second,
+		OnStuck:       stuckToViolation("C15"),
 		MinNonTrivial: map[string]int{"quick": 15, "thorough": 200},
 		Assumptions: []string{"'bounded time' is decided as 'not in a stable blocked state' 90 s after the case started (normal duration < 2 s); a wedged state that still fires hooks ends inconclusive",
 			"Close is called after all client calls returned (Close concurrent with commits is outside the property)"},
